@@ -33,6 +33,8 @@ type job struct {
 	line []byte
 	rep  int
 	idx  int
+	flim int64
+	tlim int64
 }
 
 func readLines(path string) [][]byte {
@@ -124,11 +126,6 @@ func main() {
 		chosen = append(chosen, idx...)
 	}
 	sort.Ints(chosen)
-	if mode == "c16" && len(heads) > 0 {
-		// the limits are package variables of the loader: lowered to the values of the specification
-		loader.MaxDecompressedFileSize = heads[0].FLim
-		loader.MaxDecompressedChartSize = heads[0].TLim
-	}
 	base, err := os.MkdirTemp("", "hvarch")
 	if err != nil {
 		die("%v", err)
@@ -150,56 +147,79 @@ func main() {
 			if len(wantPair) > 0 && !wantPair[fmt.Sprintf("%d:%d", heads[i].ID, r)] {
 				continue
 			}
-			jobs = append(jobs, job{line: lines[i], rep: r, idx: len(jobs)})
+			jobs = append(jobs, job{line: lines[i], rep: r, idx: len(jobs), flim: heads[i].FLim, tlim: heads[i].TLim})
 		}
 	}
 	results := make([][]byte, len(jobs))
-	ch := make(chan job)
-	var wg sync.WaitGroup
 	var failMu sync.Mutex
 	var fail error
-	for w := 0; w < *workers; w++ {
-		wg.Add(1)
-		wbase := fmt.Sprintf("%s/w%d", base, w)
-		os.MkdirAll(wbase, 0755)
-		go func(base string) {
-			defer wg.Done()
-			for j := range ch {
-				func() {
-					defer func() {
-						if x := recover(); x != nil {
-							failMu.Lock()
-							fail = fmt.Errorf("harness error in case %s: %v", strings.TrimSpace(string(j.line[:min(len(j.line), 200)])), x)
-							failMu.Unlock()
+	runJobs := func(js []job) {
+		ch := make(chan job)
+		var wg sync.WaitGroup
+		for w := 0; w < *workers; w++ {
+			wg.Add(1)
+			wbase := fmt.Sprintf("%s/w%d", base, w)
+			os.MkdirAll(wbase, 0755)
+			go func(base string) {
+				defer wg.Done()
+				for j := range ch {
+					func() {
+						defer func() {
+							if x := recover(); x != nil {
+								failMu.Lock()
+								fail = fmt.Errorf("harness error in case %s: %v", strings.TrimSpace(string(j.line[:min(len(j.line), 200)])), x)
+								failMu.Unlock()
+							}
+						}()
+						var b []byte
+						switch mode {
+						case "c16":
+							var c archive.Case16
+							if err := json.Unmarshal(j.line, &c); err != nil {
+								panic(err)
+							}
+							b, _ = json.Marshal(archive.RunCase16(c, *seed, j.rep, base))
+						case "c15":
+							var c archive.Case15
+							if err := json.Unmarshal(j.line, &c); err != nil {
+								panic(err)
+							}
+							b, _ = json.Marshal(archive.RunCase15(c, *seed, j.rep, base))
+						default:
+							panic("unknown mode " + mode)
 						}
+						results[j.idx] = b
 					}()
-					var b []byte
-					switch mode {
-					case "c16":
-						var c archive.Case16
-						if err := json.Unmarshal(j.line, &c); err != nil {
-							panic(err)
-						}
-						b, _ = json.Marshal(archive.RunCase16(c, *seed, j.rep, base))
-					case "c15":
-						var c archive.Case15
-						if err := json.Unmarshal(j.line, &c); err != nil {
-							panic(err)
-						}
-						b, _ = json.Marshal(archive.RunCase15(c, *seed, j.rep, base))
-					default:
-						panic("unknown mode " + mode)
-					}
-					results[j.idx] = b
-				}()
+				}
+			}(wbase)
+		}
+		for _, j := range js {
+			ch <- j
+		}
+		close(ch)
+		wg.Wait()
+	}
+	if mode == "c16" {
+		// the limits are package variables of the loader: lowered to the values of the specification; cases
+		// with different limits run one group after the other (never concurrently)
+		type lim struct{ f, t int64 }
+		var order []lim
+		groups := map[lim][]job{}
+		for _, j := range jobs {
+			k := lim{j.flim, j.tlim}
+			if _, ok := groups[k]; !ok {
+				order = append(order, k)
 			}
-		}(wbase)
+			groups[k] = append(groups[k], j)
+		}
+		for _, k := range order {
+			loader.MaxDecompressedFileSize = k.f
+			loader.MaxDecompressedChartSize = k.t
+			runJobs(groups[k])
+		}
+	} else {
+		runJobs(jobs)
 	}
-	for _, j := range jobs {
-		ch <- j
-	}
-	close(ch)
-	wg.Wait()
 	if fail != nil {
 		die("%v", fail)
 	}
